@@ -546,6 +546,11 @@ class Interp(Engine):
                 finally:
                     self.inline_stack.pop()
                     self.cur_frame = saved
+        if func.key.endswith("swc_utils/base.py:traverse") and func.key != self.cur_key:
+            cb = [kwargs.get("enter"), kwargs.get("leave")]
+            if any(x is not None and not isinstance(x, Callback) for x in cb):
+                # a modular `traverse` contract cannot account for what real callbacks do to the caller's state
+                raise Unsupported("call of traverse with real callbacks: the carrier's contract needs options['traverse_rule']")
         c = self.registry.get(func.key)
         # the modular rule needs a contract that says what the call returns / may modify; a contract that only
         # constrains its own carrier (no `returns`, no `modifies`) is inlined at call sites (always sound)
